@@ -64,6 +64,8 @@ class _R(object):
 
     def __repr__(self):
         try:
+            if isinstance(self.v, memoryview):
+                return 'memoryview(%r)' % (bytes(self.v),)      # the real repr contains an address
             return repr(self.v)
         except Exception:
             return '<no repr>'
@@ -261,6 +263,26 @@ def n9(a, b=1, c='c', d='d', e='e', f='f', g='g', h='h', i='i'):
     return r_n9(a, b, c, d, e, f, g, h, i)
 
 
+def r_z0(*a, **kw):
+    return _res('z0(%r,%r)' % (_R(a), _R(sorted(kw.items()))))
+
+
+def z0(*a, **kw):
+    # no named parameter at all: positional and keyword parts of the key are told apart by the sentinel only
+    _enter('z0', show((a, sorted(kw.items()))))
+    return r_z0(*a, **kw)
+
+
+def r_t2(x, t, T):
+    return _res('t2(%r,%r,%r)' % (_R(x), _R(t), _R(T)))
+
+
+def t2(x, t, T):
+    # two REQUIRED parameters whose names differ by case only (their order in a key comes from the call)
+    _enter('t2', show((x, t, T)))
+    return r_t2(x, t, T)
+
+
 def r_k1(*xs, scale):
     return _res('k1(%r,%r)' % (_R(xs), _R(scale)))
 
@@ -319,13 +341,13 @@ FUNCS = {'f1': (f1, r_f1), 'f2': (f2, r_f2), 'f3': (f3, r_f3),
          'f4': (f4, r_f4), 'f5': (f5, r_f5), 'f6': (f6, r_f6), 'f7': (f7, r_f7), 'f8': (f8, r_f8), 'f9': (f9, r_f9),
          'm2': (_M2, r_m2), 'c2': (_OBJ, r_c2), 'p2': (_P2, r_p2), 'w2': (w2, r_w2),
          'b1': (max, r_b1), 'r1': (r1, r_r1), 'd2': (d2, r_d2), 'k1': (k1, r_k1), 'v1': (None, None),
-         'p4': (_P4, r_p4), 'n9': (n9, r_n9)}          # a builtin without introspectable signature, always called with two Cnt
+         'p4': (_P4, r_p4), 'n9': (n9, r_n9), 'z0': (z0, r_z0), 't2': (t2, r_t2)}          # a builtin without introspectable signature, always called with two Cnt
 # signature twins: f7 is spelled like f2, f8 like f4 (they differ in the default value only)
 SHAPE = {'p4': 'f4', 'f7': 'f2', 'f8': 'f4', 'm2': 'f2', 'c2': 'f2', 'p2': 'f2', 'w2': 'f2', 'd2': 'f2', 'v1': 'f2'}
 DFLT = {'p4': 5, 'f2': 2, 'f6': 2, 'f4': 1, 'f7': 7.26, 'f8': 7.26, 'm2': 2, 'c2': 2, 'p2': 2, 'w2': 2, 'd2': 2, 'v1': 2}
 KWNAME = {'d2': {'y': 'default'}}      # the second parameter of d2 is called `default`
 DEFAULTS = {'f2': ('y', 2), 'f6': ('y', 2), 'f4': ('k', 1), 'f7': ('y', 7.26), 'f8': ('k', 7.26)}
-VARIADIC = ('f3', 'f6', 'b1', 'w2', 'k1')
+VARIADIC = ('f3', 'f6', 'b1', 'w2', 'k1', 'z0')
 
 
 def sibling_of(fn):
@@ -409,16 +431,20 @@ def gen_config(rng, prop, tier):
     purge = rng.chance(0.3) and prop != 'C06'
     purge_then_off = prop == 'C06' and rng.chance(0.1)
     fn = rng.weighted([(3, 'f1'), (4, 'f2'), (2, 'f3'), (2, 'f4'), (2, 'f5'), (2, 'f6'), (1, 'f7'), (1, 'f8'), (1, 'f9'), (1, 'b1'),
-                       (1, 'm2'), (1, 'c2'), (1, 'p2'), (1, 'w2'), (1, 'd2'), (1, 'k1'), (1, 'p4'), (1, 'n9')])
+                       (1, 'm2'), (1, 'c2'), (1, 'p2'), (1, 'w2'), (1, 'd2'), (1, 'k1'), (1, 'p4'), (1, 'n9'), (1, 'z0'), (1, 't2')])
     if prop == 'C20' and rng.chance(0.12):
         fn = 'v1' 
+    dflt100 = prop in ('C05', 'C15') and algo in ('lfu', 'lru', 'mru', 'rr') and not wide and rng.chance(0.02)
+    if dflt100:
+        # the decorator is built WITHOUT a maxsize argument: the documented bound is 100
+        maxsize, maxsize_pos, fn = 'default', False, 'f1'
     huge = prop == 'C06' and algo in ('lru', 'mru') and rng.chance(0.012)
     if purge_then_off:
         purge = True
     if huge:
         # a cache of a thousand entries and more than ten thousand recorded uses between two overflows
         maxsize, maxsize_pos, purge, fn, wide = rng.choice([1000, 1200]), False, False, 'f1', False
-    if prop in ('C01', 'C05', 'C15') and not wide and rng.chance(0.06):
+    if prop in ('C01', 'C05', 'C15') and not wide and not dflt100 and rng.chance(0.06):
         fn = 'r1'        # a memoized recursive function (re-entrant calls)
     if wide:
         fn = rng.choice(['f2', 'f6', 'f9', 'f2'])       # enough distinct bound-argument combinations
@@ -536,6 +562,17 @@ def logical_call(rng, fn, pool, tuples_ok):
         if rng.chance(0.4):
             c['n9'] = [[n, rng.choice(['c', 'd', 'zz', 7])] for n in rng.sample(list('cdefghi'), rng.randint(1, 2))]
         return c
+    if fn == 'z0':
+        # either positional values or keyword values; some positional calls SPELL a keyword call's names and values
+        if rng.chance(0.5):
+            names = rng.sample(KW_NAMES, rng.randint(1, 2))
+            return {'kw': [[n, rng.choice(pool[:3])] for n in names]}
+        if rng.chance(0.5):
+            n = rng.choice(KW_NAMES)
+            return {'a': [n, rng.choice(pool[:3])]}
+        return {'a': [rng.choice(pool) for _ in range(rng.randint(1, 3))]}
+    if fn == 't2':
+        return {'x': rng.choice(pool), 't': rng.choice(pool[:3]), 'T': rng.choice(pool[:3])}
     if fn == 'p4':
         c = {'x': rng.choice(pool)}
         if rng.chance(0.6):
@@ -572,6 +609,24 @@ def spell(rng, fn, c):
     rename = KWNAME.get(fn, {})
     if fn == 'k1':
         return {'op': 'call', 'a': [enc(v) for v in c['a']], 'kw': [['scale', enc(c['k'])]]}
+    if fn == 'z0':
+        kws = list(c.get('kw', []))
+        rng.shuffle(kws)
+        return {'op': 'call', 'a': [enc(v) for v in c.get('a', [])], 'kw': [[n, enc(v)] for n, v in kws]}
+    if fn == 't2':
+        form = rng.below(3)
+        args, kws = [c['x']], []
+        if form == 0 and 't' in c:
+            args.append(c['t'])
+            if 'T' in c and rng.chance(0.5):
+                args.append(c['T'])
+            elif 'T' in c:
+                kws.append(['T', c['T']])
+        else:
+            kws = [[n, c[n]] for n in ('t', 'T') if n in c]
+            if form == 2:
+                kws.reverse()
+        return {'op': 'call', 'a': [enc(v) for v in args], 'kw': [[n, enc(v)] for n, v in kws]}
     if fn == 'n9':
         # bound values: a, b and the named ones; everything else keeps its default. Spelled positionally up to a
         # random parameter and by keyword (in any order) from there on
@@ -668,25 +723,25 @@ def spell(rng, fn, c):
 
 BAD_ARGS = [[1, 2], {'$d': [['a', 1]]}, {'$s': [1, 2]}, {'$o': 'badrepr'}, {'$o': 'unpicklable'},
             [[1], {'$o': 'unpicklable'}], {'$deep': 3000}, {'$d': [[1, 2.5]]}, [{'$d': [[{'$t': [0, 1]}, 4.0]]}],
-            {'$o': 'keyerr'}, [{'$o': 'keyerr'}]]
+            {'$o': 'keyerr'}, [{'$o': 'keyerr'}], {'$o': 'memview'}, {'$d': [[1, 0.26], [2, 0.5]]}]
 
 OPMIX = {
     'C01': [(60, 'call'), (5, 'mcall'), (4, 'chdir'), (2, 'sibling_call'), (5, 'peer_call'), (4, 'load'), (3, 'load_k'), (4, 'dump'), (2, 'dump_k'), (3, 'clear'),
             (1, 'clear_keep'), (3, 'off'), (3, 'on'), (2, 'swap'), (4, 'restart'), (3, 'restart_dump'),
             (3, 'advance')],
-    'C02': [(60, 'call'), (4, 'chdir'), (2, 'sibling_call'), (6, 'peer_call'), (3, 'load'), (2, 'load_k'), (5, 'dump'), (2, 'dump_k'), (2, 'clear'),
+    'C02': [(60, 'call'), (2, 'sync_clear'), (2, 'ext_clear'), (4, 'chdir'), (2, 'sibling_call'), (6, 'peer_call'), (3, 'load'), (2, 'load_k'), (5, 'dump'), (2, 'dump_k'), (2, 'clear'),
             (2, 'off'), (2, 'on'), (3, 'restart'), (6, 'restart_dump'), (2, 'advance')],
     'C05': [(55, 'call'), (10, 'load'), (3, 'load_k'), (4, 'dump'), (3, 'clear'), (3, 'off'), (3, 'on'),
-            (2, 'swap'), (3, 'restart'), (3, 'restart_dump'), (2, 'clone')],
-    'C06': [(100, 'call'), (6, 'rcall')],
-    'C07': [(70, 'call'), (4, 'chdir'), (4, 'peer_call'), (3, 'load'), (3, 'load_k'), (4, 'dump'), (2, 'dump_k'), (2, 'clear'),
+            (2, 'swap'), (3, 'restart'), (3, 'restart_dump'), (2, 'clone'), (3, 'bad')],
+    'C06': [(100, 'call'), (6, 'rcall'), (4, 'bad')],
+    'C07': [(70, 'call'), (2, 'sync_clear'), (2, 'ext_clear'), (4, 'chdir'), (4, 'peer_call'), (3, 'load'), (3, 'load_k'), (4, 'dump'), (2, 'dump_k'), (2, 'clear'),
             (2, 'off'), (3, 'on'), (2, 'restart_dump'), (1, 'swap')],
     'C15': [(60, 'call'), (3, 'codeco_call'), (3, 'peer_call'), (4, 'load'), (2, 'load_k'), (4, 'dump'), (2, 'dump_k'), (4, 'clear'),
             (3, 'clear_keep'), (3, 'off'), (3, 'on'), (2, 'swap'), (3, 'restart'), (3, 'restart_dump'),
             (3, 'clone'), (5, 'rcall'), (3, 'bad')],
     'C16': [(55, 'call'), (14, 'rcall'), (8, 'bad'), (3, 'load'), (3, 'dump'), (2, 'clear'), (2, 'off'),
             (2, 'on'), (2, 'restart_dump')],
-    'C18': [(50, 'call'), (5, 'mcall'), (2, 'sibling_call'), (14, 'key'), (14, 'lookup'), (3, 'rcall'), (3, 'load'), (3, 'dump'),
+    'C18': [(50, 'call'), (4, 'bad'), (5, 'mcall'), (2, 'sibling_call'), (14, 'key'), (14, 'lookup'), (3, 'rcall'), (3, 'load'), (3, 'dump'),
             (2, 'clear'), (2, 'off'), (2, 'on'), (2, 'restart_dump')],
     'C20': [(60, 'call'), (5, 'gset'), (3, 'load'), (3, 'dump'), (2, 'clear'), (1, 'clear_keep'), (2, 'off'), (2, 'on'),
             (3, 'rcall')],
@@ -743,10 +798,13 @@ def generate(rng, prop, tier):
         mix = [(w, k) for (w, k) in mix if k != 'chdir']
     if fn != 'v1':
         mix = [(w, k) for (w, k) in mix if k != 'gset']
-    if fn in ('k1', 'v1', 'd2'):
+    if fn in ('k1', 'v1', 'd2', 'z0', 't2'):
         mix = [(w, k) for (w, k) in mix if k not in ('bad', 'mcall', 'sibling_call')]
     if cfg.get('unenc'):
-        mix = [(w, k) for (w, k) in mix if k not in ('restart', 'restart_dump', 'swap', 'peer_call', 'clear')]
+        mix = [(w, k) for (w, k) in mix if k not in ('restart', 'restart_dump', 'swap', 'peer_call', 'clear',
+                                                      'sync_clear', 'ext_clear')]
+    if cfg['backend'] is None or cfg['direct']:
+        mix = [(w, k) for (w, k) in mix if k not in ('sync_clear', 'ext_clear')]
     if fn in ('r1', 'b1') or cfg['keymap']['kind'] == 'raw' or cfg.get('ignore') is not None or \
        (cfg['keymap']['kind'] == 'pickle' and cfg['keymap']['arg'] == 'json' and False):
         mix = [(w, k) for (w, k) in mix if k != 'mcall']
@@ -797,7 +855,10 @@ def generate(rng, prop, tier):
             extra = [1] if fn == 'f9' else []
             if fn in ('f2', 'f6', 'f7', 'f3') and rng.chance(0.4):
                 extra = [rng.choice([2.6, 0.75, 3])]      # a second argument that rounding or ignore would alter
-            ops.append({'op': 'call', 'a': [rng.choice(BAD_ARGS)] + extra, 'kw': [], 'bad': True})
+            badarg = rng.choice(BAD_ARGS)
+            if cfg.get('tol') is not None and cfg.get('deep') and rng.chance(0.5):
+                badarg = {'$d': [[1, 0.26], [2, 0.5]]}      # deep rounding iterates it but cannot rebuild it
+            ops.append({'op': 'call', 'a': [badarg] + extra, 'kw': [], 'bad': True})
         elif kind in ('load_k', 'dump_k'):
             cs = [rng.choice(hot) for _ in range(rng.randint(1, 2))]
             ops.append({'op': kind, 'calls': [spell(rng, fn, c) for c in cs]})
@@ -806,7 +867,7 @@ def generate(rng, prop, tier):
         else:
             ops.append({'op': kind})
     if prop in ('C06', 'C05', 'C07', 'C01') and cfg['algo'] in ('lfu', 'lru', 'mru', 'rr') \
-       and cfg['maxsize'] not in (0, None) and rng.chance(0.5 if cfg.get('wide') else 0.08):
+       and cfg['maxsize'] not in (0, None, 'default') and rng.chance(0.5 if cfg.get('wide') else 0.08):
         # "sweep" workload: a working set as large as the cache is used the same number of times (all use
         # counts tie, recency order = sweep order), then new arguments arrive and overflow it
         ms = cfg['maxsize']
@@ -861,7 +922,17 @@ def generate(rng, prop, tier):
         ops.extend({'op': 'call', 'a': [ms + i], 'kw': []} for i in range(4))
     if prop == 'C20':
         pos = rng.randint(0, len(ops))
-        ops.insert(pos, {'op': 'clone'})
+        clone = {'op': 'clone'}
+        if cfg['backend'] is not None and B.is_persistent(cfg['backend']) and not cfg['direct'] and rng.chance(0.3):
+            # the pickle travels: between dumps() and loads() somebody empties the shared store (through a handle
+            # of its own). The restored function must still hold what the original held when it was pickled
+            clone['between'] = 'ext_clear'
+        ops.insert(pos, clone)
+    if cfg['maxsize'] == 'default':
+        # more distinct calls than the default bound of 100, then a few repeats
+        n_d = 100 + rng.randint(3, 25)
+        ops = ops[:rng.randint(0, 8)] + [{'op': 'call', 'a': [1000 + i], 'kw': []} for i in range(n_d)] + \
+            [{'op': 'call', 'a': [1000 + rng.below(n_d)], 'kw': []} for _ in range(rng.randint(2, 8))]
     if cfg.get('vanish'):
         ops.insert(rng.randint(min(3, len(ops)), len(ops)), {'op': 'vanish'})
         ops.extend(spell(rng, fn, logical_call(rng, fn, pool, True))
@@ -970,6 +1041,8 @@ class World(object):
             kw['deep'] = cfg['deep']
         if cfg['algo'] in ('no', 'inf'):
             dec_ = cls(**kw)
+        elif cfg['maxsize'] == 'default':
+            dec_ = cls(**kw)
         elif cfg['maxsize_pos']:
             dec_ = cls(cfg['maxsize'], **kw)
         else:
@@ -1007,7 +1080,7 @@ class World(object):
     @property
     def eff_maxsize(self):
         a = self.eff_algo
-        return 0 if a == 'no' else None if a == 'inf' else self.cfg['maxsize']
+        return 0 if a == 'no' else None if a == 'inf' else 100 if self.cfg['maxsize'] == 'default' else self.cfg['maxsize']
 
     # -- observation --------------------------------------------------------
     def observe(self):
@@ -1130,7 +1203,9 @@ class Oracle(object):
         # ---- C05: capacity
         if prop == 'C05' and tag == 'ok':
             n0, n1 = len(mem0), len(mem1)
-            if algo == 'no' and n1 != 0:
+            if algo == 'no' and n1 != 0 and not (bad and n1 <= n0):
+                # (a call that bypasses the cache because its arguments cannot be keyed leaves what a bulk load()
+                # put there; it must not add to it)
                 raise Mismatch('capacity', 'maxsize=0 but %d entries resident after call %s' % (n1, show_op(op)))
             if algo == 'inf':
                 lost = [k for k in mem0 if k not in mem1]
@@ -1251,6 +1326,13 @@ class Oracle(object):
                     raise Mismatch('safe-fallback-wrong-result', 'safe call %s with an un-encodable argument returned %r; '
                                    'evaluating the call as made gives %r' % (show_op(op), val, exp))
                 self.bump('safe-fallback')
+        # ---- C18: a call whose arguments key() cannot name must not have created an entry
+        if prop == 'C18' and tag == 'ok' and bad and not hashable:
+            new = [k for k in mem1 if k not in mem0]
+            if new:
+                raise Mismatch('key-incoherent', 'call %s stored its result under %s, but key() for the same arguments '
+                               'raises %s: the entry can be neither named nor looked up'
+                               % (show_op(op), show(new[0]), type(keyerr).__name__))
         # ---- C18: key()/lookup() coherence with what the call stored
         if prop == 'C18' and tag == 'ok' and hashable and not bad:
             new = [k for k in mem1 if k not in mem0]
@@ -1617,6 +1699,19 @@ def run_world(case, prop, root, name, skip, fs, clock, probes, faults, log):
             after = w.observe()
             if prop in ('C15', 'C05') and w.eff_algo != 'no' and len(after['mem']) != 0 and not after['direct']:
                 raise Mismatch('clear', 'clear() left %d entries resident' % len(after['mem']))
+        elif kind == 'sync_clear':
+            if not before['direct'] and cfg['backend'] is not None:
+                c.sync(clear=True)       # archive emptied, then everything resident dumped
+                bump(faults, 'cache-sync-clear')
+                orc.computed.clear()
+                orc.evalcount.clear()
+        elif kind == 'ext_clear':
+            if not before['direct'] and cfg['backend'] is not None and B.is_persistent(cfg['backend']):
+                # somebody else (a cleanup job, another worker) empties the shared store through a handle of its own
+                w.at_home(lambda: B.make(cfg['backend'], w.root, cached=False)).clear()
+                bump(faults, 'archive-cleared-through-another-handle')
+                orc.computed.clear()
+                orc.evalcount.clear()
         elif kind == 'gset':
             _GS['n'] += 1          # module-level state the (by-value pickled) function reads
             bump(faults, 'module-state-changed')
@@ -1660,11 +1755,20 @@ def run_world(case, prop, root, name, skip, fs, clock, probes, faults, log):
             bump(faults, 'restart' if kind == 'restart' else 'restart-after-dump')
         elif kind == 'clone' and cfg['backend'] is not None and cfg['backend']['kind'] == 'sql':
             pass      # sqlite3 connections do not pickle (C04 known finding; C20 excludes them)
+        elif kind == 'clone' and prop == 'twin':
+            # the world that keeps the original: only what happened to the store in between
+            if op.get('between') == 'ext_clear':
+                w.at_home(lambda: B.make(cfg['backend'], w.root, cached=False)).clear()
         elif kind == 'clone':
             import dill
             snap = w.observe()
             try:
-                g = dill.loads(dill.dumps(f))
+                blob = dill.dumps(f)
+                if op.get('between') == 'ext_clear':
+                    w.at_home(lambda: B.make(cfg['backend'], w.root, cached=False)).clear()
+                    bump(faults, 'store-emptied-between-dumps-and-loads')
+                    snap = dict(snap, arch={} if snap['arch'] is not None else None)
+                g = dill.loads(blob)
             except Exception as e:
                 raise Mismatch('clone-raises', 'dill round trip raised %s: %s' % (type(e).__name__, str(e)[:300]))
             w.orig, w.orig_snap = f, snap
@@ -1736,7 +1840,7 @@ def execute(case, prop, ctx):
                 elif prop == 'C18':
                     skip = lambda step, op: op['op'] in ('key', 'lookup')
                 else:
-                    skip = lambda step, op: op['op'] == 'clone'
+                    skip = lambda step, op: op['op'] == 'clone' and not op.get('between')
                 clock2 = SimClock()
                 fs.clock = clock2
                 p2, f2_ = {}, {}
@@ -1914,11 +2018,15 @@ def evidence_info(prop):
                 '"bigres" runs (1.2 MB results). A tenth of the calls each return None, \'\', 0, a 9 kB string. Wrapped '
                 'callables: plain functions of every signature shape, bound method, callable instance, partials (one '
                 'overriding a keyword-only default), functools.wraps decorator, a builtin, a recursive function, a '
-                'nine-parameter function (flat keys of more than 16 items), a by-value nested function. Raising calls '
+                'nine-parameter function (flat keys of more than 16 items), a function without named parameters, one whose '
+                'parameter names differ by case only, a by-value nested function. Un-keyable arguments (safe caches): '
+                'lists, dicts, sets, objects whose repr/pickling/hash raise, a writable memoryview. Raising calls '
                 'raise an Exception or a BaseException (interrupt-like), a fifth of them `from` an explicit cause. Per '
                 'property: C02 adds float nan arguments (raw keymap, pickled directory archives); C05 adds the storage '
                 'fault "vanish" (the archive\'s directory is removed mid-run, later operations may fail, the bound must '
-                'hold); C06 adds purge configurations whose archive is switched off mid-run; tol runs (C16 C18 C20) add a '
+                'hold) and decorators built without maxsize (bound 100, 103-125 distinct calls); C02/C07 add steps where the '
+                'shared store is emptied through another handle or by cache.sync(clear=True); C20 round trips may have '
+                'the store emptied between dumps() and loads(); C06 adds purge configurations whose archive is switched off mid-run; tol runs (C16 C18 C20) add a '
                 'float subclass and floats nested in tuples (deep rounding). Oracle: '
                 + RULES[prop] + '. distinct = distinct (configuration, sequence of (step kind, resident count)); '
                 'non-trivial = the history contains at least one miss and at least one hit or load',
